@@ -1015,6 +1015,30 @@ impl Router {
             self.scheduler.track(id, request);
             self.scheduler.reschedule(id, ScheduleReason::NewFilter);
             debug_assert!(self.scheduler.check_tracker_duplicates(id).is_none())
+        } else {
+            // re-subscription: the SUBACK grants the QoS asked for now, so the
+            // existing request has to forward at that QoS from here on,
+            // wherever it currently lives (tracker, waiters or notifications)
+            let qos = filter.qos as u8;
+            if let Some(tracker) = self.scheduler.trackers.get_mut(id) {
+                for request in tracker.data_requests.iter_mut() {
+                    if request.filter == *filter_path {
+                        request.qos = qos;
+                    }
+                }
+            }
+            if let Some(data) = self.datalog.native.get_mut(filter_idx) {
+                for (connection_id, request) in data.waiters.get_mut().iter_mut() {
+                    if *connection_id == id && request.filter == *filter_path {
+                        request.qos = qos;
+                    }
+                }
+            }
+            for (connection_id, request) in self.notifications.iter_mut() {
+                if *connection_id == id && request.filter == *filter_path {
+                    request.qos = qos;
+                }
+            }
         }
 
         // TODO: figure out how we can update existing DataRequest
